@@ -48,6 +48,8 @@ def name_kind(rel):
     is `dotdot`; the other kinds are names without any '..'."""
     if any(a == ".." for e in rel for a in e.split("/")):
         return "dotdot"
+    if any("\\" in e for e in rel):
+        return "backslash"       # '\\' is an ordinary character of a name on this platform
     ks = [elem_kind(e) for e in rel]
     for k in ("absolute", "separator", "empty", "dot", "long"):
         if k in ks:
@@ -113,6 +115,22 @@ def build_jobs(names, escapes, quick, rng):
         for hp in (0, 1):
             for hd in (False, True):
                 add("direct", "archive", rel, proto=4, directory=True, overwrite=False, hp=hp, hd=hd, deep=True)
+    # ---- names with '\\': not a separator here, so such an element is one ordinary name inside the
+    # destination -- also when the peer claims to be a Windows server (the client then uses Windows
+    # framing; nothing may start treating '\\' as a separator after the names were checked)
+    bs = [["sub\\..\\..\\canary"], ["..\\canary"], ["d", "e\\..\\..\\..\\r"], ["\\abs\\r"], ["a\\b"], ["x", "..\\..\\y"]]
+    for rel in bs:
+        for win in (False, True):
+            for proto, directory, site in cfg_combos():
+                if site == "plain":
+                    if len(rel) == 1:
+                        for ow in (False, True):
+                            add("direct", "plain", rel, proto=proto, directory=False, overwrite=ow, win=win)
+                else:
+                    for ow in (False, True):
+                        add("direct", "json", rel, proto=proto, directory=directory, overwrite=ow, win=win)
+            for hd in (False, True):
+                add("direct", "archive", rel, proto=4, directory=True, overwrite=False, hp=0, hd=hd, win=win)
     # ---- e2e / crafted: a sample of the names (stratified by kind), every configuration
     bykind = {}
     for rel in names:
